@@ -137,6 +137,16 @@ def r2_skip_sets(ctx: Ctx) -> None:
                         pass
         if not term_tests:
             raise AnalysisError("lex_initial: `*/` terminator test not found in the block-comment arm")
+        # the comment ends exactly where `*/` was found: the COMMENT token is emitted on the "found" side of that test only
+        emits_c = [g.node_containing(c) for st in body for c in calls_in(st) if call_name(c) == "s.emit" and "COMMENT" in unparse(c)]
+        for tn_ in term_tests:
+            a_ = g.nodes[tn_].ast
+            negated = isinstance(a_, ast.UnaryOp) and isinstance(a_.op, ast.Not)
+            if not (unparse(a_) in ("s.accept_prefix('*/')", "not s.accept_prefix('*/')")):
+                raise AnalysisError(f"lex_initial: terminator test `{unparse(a_)[:40]}` not modelled")
+            found = "F" if negated else "T"
+            ctx.check(bool(emits_c) and all(g.dominated_by_edge(e_, (tn_, found)) for e_ in emits_c), "lex_initial:/*-arm:ends-at-terminator",
+                      "the COMMENT token is emitted only once `*/` has been found; otherwise the comment body is lexed as code")
         first = body[0]
         start = g.node_of(first.test) if isinstance(first, (ast.If, ast.While)) else g.node_of(first)
         for cn in sorted(set(consumers)):
@@ -195,8 +205,53 @@ def r2_skip_sets(ctx: Ctx) -> None:
     ctx.check(ok, "lex_expression:spaces", "spaces are skipped before every operand and operator")
     lx = ctx.repo.func(SST, "lex_opcode_index")
     ctx.check(any(unparse(s) == "s.ignore_run(' ')" for s in lx.node.body), "lex_opcode_index:spaces", "spaces after the index comma are skipped")
+    from ..cfg import CFG as _CFG
+    from ..cfg import CFG as _CFG0
+
     lop = ctx.repo.func(SST, "lex_opcode")
     ctx.check(any(unparse(s) == "s.ignore_run(' ')" for s in lop.node.body), "lex_opcode:spaces", "spaces between mnemonic and operand are skipped")
+    # the "does the mnemonic stand alone" look-ahead of lex_opcode: spaces, tabs and a `;` comment are skipped before the end of
+    # the line is tested, and the cursor is put back before the token is emitted whichever way the test goes
+    glo_ = _CFG0(lop.node)
+    snaps = [n for n in walk_no_nested(lop.node) if isinstance(n, ast.Assign) and unparse(n.value) == "s.pos" and isinstance(n.targets[0], ast.Name)]
+    if snaps:
+        sv = snaps[0].targets[0].id  # type: ignore[union-attr]
+        sn_ = glo_.node_of(snaps[0])
+        restores = [glo_.node_of(n) for n in walk_no_nested(lop.node) if isinstance(n, ast.Assign) and unparse(n.targets[0]) == "s.pos" and unparse(n.value) == sv]
+        eol = [nid for nid, nd in glo_.nodes.items() if nd.kind == "test" and "s.peek()" in unparse(nd.ast) and ("'\\n'" in unparse(nd.ast) or "EOF" in unparse(nd.ast))]
+        if not eol:
+            raise AnalysisError("lex_opcode: end-of-line test of the look-ahead not found")
+        ws = [glo_.node_containing(c) for c in calls_in(lop.node) if call_name(c) == "s.accept_run" and set(" \t") <= set(const_str(c.args[0]) or "")
+              and not any(k.arg == "negate" for k in c.keywords)]
+        ctx.check(bool(ws) and all(glo_.every_path_passes(sn_, e, ws) for e in eol), "lex_opcode:lookahead-skips-blanks",
+                  "spaces and tabs after the mnemonic are skipped before the end of the line is tested (`inc   ` == `inc`)")
+        cm = [glo_.node_containing(c) for c in calls_in(lop.node) if call_name(c) == "s.accept_run" and "\n" in (const_str(c.args[0]) or "")
+              and any(k.arg == "negate" and getattr(k.value, "value", False) for k in c.keywords)]
+        semi = [nid for nid, nd in glo_.nodes.items() if nd.kind == "test" and unparse(nd.ast) == "s.accept(';')"]
+        ok_c = bool(cm) and bool(semi) and all(glo_.dominated_by_edge(c_, (semi[0], "T")) for c_ in cm) and all(e not in glo_.reachable([m for m, l in glo_.succ[semi[0]] if l == "T"], blocked=cm) for e in eol)
+        ctx.check(ok_c, "lex_opcode:lookahead-skips-comment", "a `;` comment after the mnemonic is skipped up to the end of the line before that end is tested (`inc ; x` == `inc`)")
+        emits_lo = [glo_.node_containing(c) for c in calls_in(lop.node) if call_name(c) == "s.emit"]
+        after_la = [e for e in emits_lo if e in glo_.reachable([m for m, _l in glo_.succ[sn_]])]
+        ctx.check(bool(restores) and all(glo_.every_path_passes(sn_, e, restores) for e in after_la), "lex_opcode:lookahead-restored",
+                  "the cursor is put back before the mnemonic token is emitted on every path out of the look-ahead (otherwise the blanks become part of the mnemonic)")
+    else:
+        raise AnalysisError("lex_opcode: look-ahead snapshot not found")
+    # wherever the operand is handed to lex_operand, the spaces before it were skipped after the last token was emitted
+    # (lex_operand looks at the very next character for `#`, `(` and `[`)
+    n_sites = 0
+    for fname in ("lex_opcode", "lex_opcode_size"):
+        f_ = ctx.repo.func(SST, fname)
+        g_ = _CFG(f_.node)
+        skips_ = [g_.node_containing(c) for c in calls_in(f_.node) if call_name(c) in ("s.ignore_run", "s.accept_run") and " " in (const_str(c.args[0]) or "")]
+        emits_ = [g_.node_containing(c) for c in calls_in(f_.node) if call_name(c) in ("s.emit", "lex_opcode_size")]
+        for c in [c for c in calls_in(f_.node) if call_name(c) == "lex_operand"]:
+            n_sites += 1
+            cn_ = g_.node_containing(c)
+            bad = [e for e in emits_ if cn_ in g_.reachable([m for m, _l in g_.succ[e]], blocked=skips_, labels_excluded=["exc"])]
+            ctx.check(not bad, f"{fname}:spaces-before-operand", "between the last emitted token (mnemonic / size suffix) and lex_operand the spaces are skipped: "
+                      "`lda.b #1` with a space after the suffix must lex like `lda.b#1`")
+    ctx.count("operand_handoffs", n_sites)
+    ctx.floor("operand_handoffs", 2)
     ctx.count("skip_facts", 8)
 
 
@@ -293,4 +348,11 @@ def rm_no_process_lifetime_results(ctx: Ctx) -> None:
     state_rule(ctx)
 
 
-RULES = [r1_case_fold_before_keying, r2_skip_sets, r3_include_is_transparent, r4_search_results_checked, rm_no_process_lifetime_results]
+def ru_names_bound(ctx: Ctx) -> None:
+    """a local read but never bound raises NameError for every input that reaches the statement (shared rule, names.py)"""
+    from ..names import names_rule
+
+    names_rule(ctx)
+
+
+RULES = [r1_case_fold_before_keying, r2_skip_sets, r3_include_is_transparent, r4_search_results_checked, rm_no_process_lifetime_results, ru_names_bound]
